@@ -3,6 +3,7 @@
 #       = "input: " + alias + " args=" + ENCL(A) + ", kwargs=" + ENCD(KW)       (A, KW selected by capture_args; modifies nothing)
 #   _output_interception_key(alias, n) = "output: " + alias + " #" + str(n)
 import ast
+import os
 import z3
 
 from pyvc.vals import Val, NONE, S, B, I, K, LAT, TYP, sub, SeqV, Str, AVV, AVB, BASE, fresh, truthy, St, Unsupported
@@ -11,7 +12,7 @@ from pyvc.repo import Repo
 from pyvc.run import Obl
 from pyvc import lib, smt
 
-REPO_ROOT = '/repo'
+REPO_ROOT = os.environ.get('PYVC_REPO', '/repo')
 TR = 'playback.tape_recorder:TapeRecorder.'
 # A1 (assumed): jsonpickle.encode of a list is a function of the structural values of its elements; of a name-sorted item list a function
 # of the dict's contents (independent of insertion order); of an insertion-ordered item list additionally of that order.
@@ -103,7 +104,7 @@ def template(alias, a, dom, mp):
 
 
 def input_key(props=None):
-    repo = Repo(REPO_ROOT); spec = KeySpec(); ex = lib.install(Exec(repo, spec))
+    repo = Repo(); spec = KeySpec(); ex = lib.install(Exec(repo, spec))
     m, cls, node, info = repo.find(TR + '_input_interception_key')
     st = St()
     alias = fresh('alias'); st.assume(Val.is_s(alias))
@@ -140,7 +141,7 @@ def input_key(props=None):
 
 
 def output_key(props=None):
-    repo = Repo(REPO_ROOT); ex = lib.install(Exec(repo, None))
+    repo = Repo(); ex = lib.install(Exec(repo, None))
     m, cls, node, info = repo.find(TR + '_output_interception_key')
     st = St(); alias = fresh('alias'); n = fresh('n'); st.assume(Val.is_s(alias)); st.assume(Val.is_i(n))
     st.push({'alias': alias, 'invocation_number': n}, None, (m.name, cls, node))
@@ -156,7 +157,7 @@ def format_alias(props=None):
     """_format_alias(alias, resolver, *args, **kwargs): no resolver -> the alias itself; else alias.format(**resolver(*args, **kwargs))"""
     from specs.tr_base import TRSpec
     from pyvc.calls import Role
-    repo = Repo(REPO_ROOT)
+    repo = Repo()
 
     class FS(object):
         def __init__(self): self.calls = []
